@@ -126,7 +126,8 @@ def run_chunk(args):
             e = out["viol"].get(v.sig)
             if e is None or len(r.steps) < e["nsteps"]:
                 out["viol"][v.sig] = {"sig": v.sig, "seed": seed, "family": fam, "msg": v.msg, "nsteps": len(r.steps),
-                                      "cfg": r.cfg, "steps": r.steps, "count": (e["count"] if e else 0) + 1}
+                                      "cfg": r.cfg, "steps": r.steps, "count": (e["count"] if e else 0) + 1,
+                                      "chunk": [base, start, count]}
             else:
                 e["count"] += 1
     faulthandler.cancel_dump_traceback_later()
